@@ -3,7 +3,8 @@ EXTENDS SortNodes, SequencesExt, Json, IOUtils
 CONSTANTS MaxN, Pools
 InjSeqs(S, n) == { s \in [1 .. n -> S] : Injective(s) }
 \* cols[k] = <<type, x, y, z, r, extra>> : x is the row's identity tag; the extra column differs from every standard one
-ColsOf(n) == [k \in 1 .. n |-> <<1 + (k % 3), 100 + k, (7 * k) % 5, (3 * k) % 4, 1 + (k % 2), 300 + 2 * k>>]
+\* the extra column has missing entries (-1 stands for "no value": NaN in the table and tree forms)
+ColsOf(n) == [k \in 1 .. n |-> <<1 + (k % 3), 100 + k, (7 * k) % 5, (3 * k) % 4, 1 + (k % 2), IF k % 3 = 0 THEN -1 ELSE 300 + 2 * k>>]
 Tables == UNION { UNION { { [ids |-> ids, Q |-> Q, pids |-> PidsOf(ids, Q), cols |-> ColsOf(n)] : ids \in InjSeqs(S, n), Q \in TableTopos(n) }
                           : S \in { T \in Pools : Cardinality(T) >= n } } : n \in 1 .. MaxN }
 \* table / file forms: any ids, root anywhere.  tree form: ids = positions (any numbering)
